@@ -449,6 +449,7 @@ class Check:
         self.analysed: set[str] = set()  # functions / constructs consulted
         self.info: list[str] = []  # informational lines
         self.floors: dict[str, int] = {}
+        self.stage_errors: list[str] = []
 
     # -- recording -------------------------------------------------------
     def touch(self, *names: str) -> None:
@@ -459,6 +460,18 @@ class Check:
         verdict = "holds" if ok else ("undecided" if ok is None else "violated")
         self.obs.append(Obligation(rule, where, desc, verdict, detail, key or f"{rule}|{desc}", how))
         return bool(ok)
+
+    def stage(self, fn, *args, **kwargs):
+        """run one group of rules; if it cannot be analysed (anchor vanished, construct outside the analysable subset) remember that and go on
+        with the other groups, so that a violation another group can still see is reported (exit 1) instead of being hidden behind the analysis
+        error (exit 2).  Returns the group's result, or None when it failed."""
+        try:
+            return fn(*args, **kwargs)
+        except AnalysisError as e:
+            self.stage_errors.append(f"{type(e).__name__}: {e}")
+        except (RecursionError, KeyError, IndexError, AttributeError, TypeError, ValueError) as e:
+            self.stage_errors.append(f"internal {type(e).__name__} in {getattr(fn, '__name__', fn)}: {e}")
+        return None
 
     def floor(self, rule: str, n: int) -> None:
         """Rule must have produced at least n obligations, else the anchor
@@ -529,6 +542,8 @@ def run_property(pid: str, rulefn: Callable[[Check], None], level: str, tier: st
         return 2, {"error": msg}
     try:
         rulefn(chk)
+        if chk.stage_errors:
+            raise AnalysisError("; ".join(chk.stage_errors[:3]))
         chk.check_floors()
         und = [o for o in chk.obs if o.verdict == "undecided"]
         if und:
